@@ -612,3 +612,8 @@ B2("b40", ["C09", "C10"], [
     (PVI, "        self.values = solver_state.values\n        self.policy = solver_state.policy\n        self.iteration = solver_state.info.iteration\n        self.value_history = solver_state.info.value_history",
      "        super()._restore_state_from_checkpoint(solver_state)\n        self.value_history = solver_state.info.value_history", None)],
    "PVI restore delegates the common fields to super()")
+M("m114", "C16", "R16.6", HENDRIX, "                scipy.stats.binom.pmf(0, x, self.substitution_probability)\n            )", "                self.substitution_probability**x\n            )",
+  "Hendrix pu[0, y]: p**x instead of Binomial(0; x, p) = (1-p)**x (identical at p = 0.5) - from seeded change C16b")
+M("m115", "C04", "R4.4", RVI, "        self.policy = self._extract_policy()\n        logger.info(\"Policy extracted\")\n\n        logger.success(\"Relative value iteration completed\")",
+  "        if self.policy is None:\n            self.policy = self._extract_policy()\n        logger.info(\"Policy extracted\")\n\n        logger.success(\"Relative value iteration completed\")",
+  "RVI: policy extracted only on the first solve() call (a continued solve returns the stale policy) - from seeded change C04b")
